@@ -34,7 +34,8 @@ def match_known(known, prop, ob):
     for k in known.get("findings", []):
         if k.get("property") != prop:
             continue
-        if k.get("obligation") != ob["name"]:
+        # line numbers in Engine-F obligation names ("...#0@L250") are not part of the identity of a finding
+        if re.sub(r"@L\d+", "", k.get("obligation", "")) != re.sub(r"@L\d+", "", ob["name"]):
             continue
         wc = k.get("witness_contains")
         if wc:
